@@ -185,6 +185,10 @@ pub enum ROp {
     Fetch { k: u64, fail: bool },
     /// insert while a fetch of the key is pending (takes over the in-flight entry, whose key copy is dropped)
     FetchThenInsert { k: u64 },
+    /// hybrid-shaped lookup: a leader with only an optional ("disk") fetch, which misses (0), hits (1) or fails (2);
+    /// `joiner`: a second lookup-only caller joins before it resolves.  The in-flight entry is retired by the fetch
+    /// task itself (its key copy is dropped there).
+    LookupOnly { k: u64, outcome: u8, joiner: bool },
 }
 
 #[derive(Clone, Debug, Serialize, Deserialize)]
@@ -284,6 +288,56 @@ fn run_case(case: &Case, shared: &Shared, res: &mut ShardResult) {
                 });
                 drop(r);
             }
+            ROp::LookupOnly { k, outcome, joiner } => {
+                id += 1;
+                let (kk, vid, outcome, joiner) = (*k, id, *outcome, *joiner);
+                rt.block_on(async {
+                    let spawner = foyer::Spawner::current();
+                    let mk = |cx: Arc<Ctx>| {
+                        let (tx, rx) = tokio::sync::oneshot::channel::<()>();
+                        let fo: foyer_memory::OptionalFetchBuilder<RKey, RVal, CacheProperties, ()> = Box::new(move |_: &mut ()| {
+                            use futures_util::FutureExt;
+                            async move {
+                                let _ = rx.await;
+                                match outcome {
+                                    1 => Ok(Some(foyer_memory::FetchTarget::Entry { value: RVal { id: vid, key: kk, ctx: cx }, properties: CacheProperties::default() })),
+                                    2 => Err(foyer::Error::new(foyer::ErrorKind::Io, "disk-down")),
+                                    _ => Ok(None),
+                                }
+                            }
+                            .boxed()
+                        });
+                        (tx, fo)
+                    };
+                    let (tx1, fo1) = mk(ctx.clone());
+                    let g1 = cache.get_or_fetch_inner(&key(kk), || Some(fo1), || None, (), &spawner);
+                    let mut g1 = Box::pin(g1);
+                    let w1 = tokio::spawn(async move { std::future::poll_fn(move |cx| g1.as_mut().poll_inner(cx)).await.map(|e| e.is_some()) });
+                    for _ in 0..3 {
+                        tokio::task::yield_now().await;
+                    }
+                    let mut w2 = None;
+                    let mut tx2 = None;
+                    if joiner {
+                        let (t2, fo2) = mk(ctx.clone());
+                        tx2 = Some(t2);
+                        let g2 = cache.get_or_fetch_inner(&key(kk), || Some(fo2), || None, (), &spawner);
+                        let mut g2 = Box::pin(g2);
+                        w2 = Some(tokio::spawn(async move { std::future::poll_fn(move |cx| g2.as_mut().poll_inner(cx)).await.map(|e| e.is_some()) }));
+                        for _ in 0..3 {
+                            tokio::task::yield_now().await;
+                        }
+                    }
+                    let _ = tx1.send(());
+                    if let Some(t) = tx2 {
+                        let _ = t.send(());
+                    }
+                    let _ = w1.await;
+                    if let Some(w) = w2 {
+                        let _ = w.await;
+                    }
+                });
+            }
             ROp::FetchThenInsert { k } => {
                 id += 2;
                 let (kk, vid, cx) = (*k, id, ctx.clone());
@@ -348,7 +402,8 @@ fn gen_case(rng: &mut Rng, algo: Algo) -> Case {
                 70..=73 => ROp::Clear,
                 74..=77 => ROp::EvictAll,
                 78..=80 => ROp::Resize { cap: 1 + rng.usize(6) },
-                81..=91 => ROp::Fetch { k, fail: rng.chance(1, 4) },
+                81..=88 => ROp::Fetch { k, fail: rng.chance(1, 4) },
+                89..=94 => ROp::LookupOnly { k, outcome: rng.below(3) as u8, joiner: rng.chance(1, 3) },
                 _ => ROp::FetchThenInsert { k },
             }
         })
